@@ -196,8 +196,32 @@ def runHist {α : Type} (desc : FieldDesc) (F : FOps α) (uSpec bSpec : String) 
     -- type of its argument, so it is rewritten here into the constructor it dispatches to (uint → `u`, int → `s`,
     -- string → `str`; []uint / []int: extension fields only, the value is Σ cᵢ·aⁱ computed with the field's own
     -- operations; every other type, and slices for prime and binary fields: an Input error, no object).
+    -- `quotient@1 iN` (a quotient of a quotient ring: refused first, InputValue), `quotient@2 iN` (a ring the ideal
+    -- does not belong to: the Gröbner basis is computed first, then InputIncompatible);
+    -- `uquot@k j:<gens>` (univariate: ring k modulo an ideal made in ring j; rings 1 and 3 are quotient rings)
     let stepD := fun (st : St α) (line : String) =>
       if line.startsWith "escr@" then (st, "ok " ++ toString (env.fld (atIdx line)).card)
+      else if line.startsWith "quotient@1 " then (st, if bi.isSome then "err InputValue" else "bad-op")
+      else if line.startsWith "quotient@2 " then
+        let r := (step env desc st (parseOp ("quotient " ++ ((line.splitOn " ").getD 1 "")))).2
+        (st, if r == "ok" then "err InputIncompatible" else r)
+      else if line.startsWith "uquot@" then
+        let k := atIdx ((line.splitOn " ").getD 0 "")
+        let arg := (line.splitOn " ").getD 1 ""
+        let j := ((arg.splitOn ":").getD 0 "0").toNat!
+        let exists_ := fun (i : Nat) => i == 0 || i == 2 || (i == 1 && um.isSome) || (i == 3 && um2.isSome)
+        if !(exists_ k && exists_ j) then (st, "bad-op")
+        else
+          match (((arg.splitOn ":").getD 1 "").splitOn ";").mapM (decU env0) with
+          | none => (st, "bad-op")
+          | some gens =>
+            match UPoly.newIdeal F gens with
+            | none => (st, "err-ideal InputValue")
+            | some g =>
+              if UPoly.isZero F g then (st, "err-ideal InputValue")
+              else if k == 1 || k == 3 then (st, "err InputValue")
+              else if (k == 2) != (j == 2) then (st, "err InputIncompatible")
+              else (st, "ok")
       else
         let toks := (line.trimAscii.toString.splitOn " ").filter (· != "")
         match (toks.headD "").splitOn "=" with
